@@ -11,6 +11,7 @@ sortedness of the in-order leaf sequence, and insertion of a new key at its firs
 -/
 namespace AlgoVerif.C06
 variable {V : Type}
+open BitString (xbit Small xbit_lt xbit_ge lenPos)
 
 /-! ## bit-lexicographic order implies `klt` -/
 
@@ -83,6 +84,42 @@ theorem klt_of_bits {a b : Key} {d : Nat} (ha : kbit a d = false) (hb : kbit b d
         have := hj (j + 8) (by omega)
         rwa [kbit_cons_add, kbit_cons_add] at this
 
+/-- equal zero-padded bits and a shorter string: the shorter one is smaller -/
+theorem klt_of_kbit_eq_of_length_lt (a b : Key) (h : ∀ j, kbit a j = kbit b j) (hl : a.length < b.length) :
+    klt a b = true := by
+  induction a generalizing b with
+  | nil => cases b with
+    | nil => simp at hl
+    | cons => rfl
+  | cons x xs ih =>
+    cases b with
+    | nil => simp at hl
+    | cons y ys =>
+      obtain ⟨hxy, hrest⟩ := (BitString.kbit_cons_eq_iff x y xs ys).mp h
+      subst hxy
+      rw [klt_cons_same]
+      exact ih ys hrest (by simpa using hl)
+
+/-- the order in which the Patricia trie sees keys — first differing position of the sequence `Bit` reads, bits
+before lengths — is the lexicographic order (for keys whose bits stay below the length positions) -/
+theorem klt_of_xbits {a b : Key} {d : Nat} (hsa : Small a) (hsb : Small b) (ha : xbit a d = false) (hb : xbit b d = true)
+    (hj : ∀ j, j < d → xbit a j = xbit b j) : klt a b = true := by
+  unfold Small at hsa hsb
+  by_cases hd : d < lenPos
+  · rw [xbit_lt _ hd] at ha hb
+    apply klt_of_bits ha hb
+    intro j hjd
+    have := hj j hjd
+    rwa [xbit_lt _ (by omega), xbit_lt _ (by omega)] at this
+  · rw [xbit_ge _ (by omega)] at ha hb
+    simp only [decide_eq_false_iff_not, decide_eq_true_eq] at ha hb
+    apply klt_of_kbit_eq_of_length_lt a b _ (by omega)
+    intro j
+    by_cases hjl : j < lenPos
+    · have := hj j (by omega)
+      rwa [xbit_lt _ hjl, xbit_lt _ hjl] at this
+    · rw [kbit_of_len_le a (by omega), kbit_of_len_le b (by omega)]
+
 /-! ## trees -/
 
 inductive PT (V : Type) where
@@ -109,14 +146,14 @@ def inners : PT V → List Nat
 /-- the leaf `search` ends at: at an inner node, bit `bp` (1-based) of the key decides -/
 def descend : PT V → Key → Nat × Key × V
   | leaf i k v, _ => (i, k, v)
-  | inner _ bp l r, key => if kbit key (bp - 1) then descend r key else descend l key
+  | inner _ bp l r, key => if xbit key (bp - 1) then descend r key else descend l key
 
 /-- the crit-bit invariant -/
 def Crit : PT V → Prop
-  | leaf _ _ _ => True
+  | leaf _ k _ => Small k
   | inner _ bp l r =>
-    1 ≤ bp ∧ (∀ k ∈ keys l, kbit k (bp - 1) = false) ∧ (∀ k ∈ keys r, kbit k (bp - 1) = true) ∧
-    (∀ k ∈ keys l ++ keys r, ∀ k' ∈ keys l ++ keys r, ∀ j, j < bp - 1 → kbit k j = kbit k' j) ∧
+    1 ≤ bp ∧ (∀ k ∈ keys l, xbit k (bp - 1) = false) ∧ (∀ k ∈ keys r, xbit k (bp - 1) = true) ∧
+    (∀ k ∈ keys l ++ keys r, ∀ k' ∈ keys l ++ keys r, ∀ j, j < bp - 1 → xbit k j = xbit k' j) ∧
     Crit l ∧ Crit r
 
 @[simp] theorem keys_leaf (i : Nat) (k : Key) (v : V) : keys (leaf i k v) = [k] := rfl
@@ -163,6 +200,16 @@ theorem descend_of_mem {T : PT V} (hc : Crit T) {k : Key} (hk : k ∈ keys T) : 
     · simp only [hl k hk, Bool.false_eq_true, if_false]; exact ihl hcl hk
     · simp only [hr k hk, if_true]; exact ihr hcr hk
 
+theorem Crit.small {T : PT V} (hc : Crit T) : ∀ k ∈ keys T, Small k := by
+  induction T with
+  | leaf i k v => intro k' hk'; simp only [keys_leaf, List.mem_singleton] at hk'; subst hk'; exact hc
+  | inner i bp l r ihl ihr =>
+    intro k hk
+    rw [keys_inner, List.mem_append] at hk
+    rcases hk with hk | hk
+    · exact ihl hc.2.2.2.2.1 k hk
+    · exact ihr hc.2.2.2.2.2 k hk
+
 theorem sorted_ents {T : PT V} (hc : Crit T) : Sorted (ents T) := by
   induction T with
   | leaf => simp [ents, Sorted]
@@ -174,7 +221,7 @@ theorem sorted_ents {T : PT V} (hc : Crit T) : Sorted (ents T) := by
     intro a ha b hb
     have hka : a.1 ∈ keys l := List.mem_map.mpr ⟨a, ha, rfl⟩
     have hkb : b.1 ∈ keys r := List.mem_map.mpr ⟨b, hb, rfl⟩
-    apply klt_of_bits (hl _ hka) (hr _ hkb)
+    apply klt_of_xbits (Crit.small hcl _ hka) (Crit.small hcr _ hkb) (hl _ hka) (hr _ hkb)
     intro j hj
     exact hp _ (List.mem_append.mpr (.inl hka)) _ (List.mem_append.mpr (.inr hkb)) j hj
 
@@ -182,14 +229,14 @@ theorem sorted_ents {T : PT V} (hc : Crit T) : Sorted (ents T) := by
 
 /-- what `_put` hangs in place of the link it stops at -/
 def graft (S : PT V) (key : Key) (v : V) (d idx : Nat) : PT V :=
-  if kbit key (d - 1) then inner idx d S (leaf idx key v) else inner idx d (leaf idx key v) S
+  if xbit key (d - 1) then inner idx d S (leaf idx key v) else inner idx d (leaf idx key v) S
 
 /-- `_put`'s descent: follow the key's bits while the bit position is smaller than `d` -/
 def ins : PT V → Key → V → Nat → Nat → PT V
   | leaf i k v', key, v, d, idx => graft (leaf i k v') key v d idx
   | inner i bp l r, key, v, d, idx =>
     if bp < d then
-      (if kbit key (bp - 1) then inner i bp l (ins r key v d idx) else inner i bp (ins l key v d idx) r)
+      (if xbit key (bp - 1) then inner i bp l (ins r key v d idx) else inner i bp (ins l key v d idx) r)
     else graft (inner i bp l r) key v d idx
 
 theorem mem_ents_graft (S : PT V) (key : Key) (v : V) (d idx : Nat) (e : Key × V) :
@@ -241,7 +288,7 @@ theorem mem_keys_ins (T : PT V) (key : Key) (v : V) (d idx : Nat) (k : Key) :
 
 /-- all keys below a node agree with each other on the bits before its bit position; for a leaf
 this is vacuous.  `agree T n`: all keys of `T` agree on bits `< n`. -/
-def AgreeBelow (T : PT V) (n : Nat) : Prop := ∀ k ∈ keys T, ∀ k' ∈ keys T, ∀ j, j < n → kbit k j = kbit k' j
+def AgreeBelow (T : PT V) (n : Nat) : Prop := ∀ k ∈ keys T, ∀ k' ∈ keys T, ∀ j, j < n → xbit k j = xbit k' j
 
 theorem Crit.agree {i bp : Nat} {l r : PT V} (hc : Crit (inner i bp l r)) : AgreeBelow (inner i bp l r) (bp - 1) := by
   intro k hk k' hk' j hj
@@ -250,25 +297,25 @@ theorem Crit.agree {i bp : Nat} {l r : PT V} (hc : Crit (inner i bp l r)) : Agre
 
 /-- Crit is preserved by the insertion, provided `d` is the first bit at which the new key differs
 from the key its own descent ends at -/
-theorem crit_ins {T : PT V} (hc : Crit T) (key : Key) (v : V) (d idx : Nat) (hd : 1 ≤ d)
-    (hdiff : kbit key (d - 1) ≠ kbit (descend T key).2.1 (d - 1))
-    (hsame : ∀ j, j < d - 1 → kbit key j = kbit (descend T key).2.1 j) :
+theorem crit_ins {T : PT V} (hc : Crit T) (key : Key) (hsk : Small key) (v : V) (d idx : Nat) (hd : 1 ≤ d)
+    (hdiff : xbit key (d - 1) ≠ xbit (descend T key).2.1 (d - 1))
+    (hsame : ∀ j, j < d - 1 → xbit key j = xbit (descend T key).2.1 j) :
     Crit (ins T key v d idx) := by
   -- the grafting step, for a subtree all of whose keys agree with the descent's key up to and including bit d-1
-  have hgraft : ∀ S : PT V, Crit S → (∀ k ∈ keys S, ∀ j, j < d → kbit k j = kbit (descend T key).2.1 j) →
+  have hgraft : ∀ S : PT V, Crit S → (∀ k ∈ keys S, ∀ j, j < d → xbit k j = xbit (descend T key).2.1 j) →
       Crit (graft S key v d idx) := by
     intro S hS hall
-    have hside : ∀ k ∈ keys S, kbit k (d - 1) = !kbit key (d - 1) := by
+    have hside : ∀ k ∈ keys S, xbit k (d - 1) = !xbit key (d - 1) := by
       intro k hk
       rw [hall k hk (d - 1) (by omega)]
-      cases h1 : kbit key (d - 1) <;> cases h2 : kbit (descend T key).2.1 (d - 1) <;> simp_all
-    have hpre : ∀ k ∈ keys S, ∀ j, j < d - 1 → kbit k j = kbit key j := by
+      cases h1 : xbit key (d - 1) <;> cases h2 : xbit (descend T key).2.1 (d - 1) <;> simp_all
+    have hpre : ∀ k ∈ keys S, ∀ j, j < d - 1 → xbit k j = xbit key j := by
       intro k hk j hj
       rw [hall k hk j (by omega), hsame j hj]
     unfold graft
-    cases hb : kbit key (d - 1)
+    cases hb : xbit key (d - 1)
     · simp only [Bool.false_eq_true, if_false]
-      refine ⟨hd, ?_, ?_, ?_, trivial, hS⟩
+      refine ⟨hd, ?_, ?_, ?_, hsk, hS⟩
       · simp [hb]
       · intro k hk; rw [hside k hk, hb]; rfl
       · intro k hk k' hk' j hj
@@ -279,7 +326,7 @@ theorem crit_ins {T : PT V} (hc : Crit T) (key : Key) (v : V) (d idx : Nat) (hd 
         · exact hpre k hk j hj
         · rw [hpre k hk j hj, hpre k' hk' j hj]
     · simp only [if_true]
-      refine ⟨hd, ?_, ?_, ?_, hS, trivial⟩
+      refine ⟨hd, ?_, ?_, ?_, hS, hsk⟩
       · intro k hk; rw [hside k hk, hb]; rfl
       · simp [hb]
       · intro k hk k' hk' j hj
@@ -309,8 +356,8 @@ theorem crit_ins {T : PT V} (hc : Crit T) (key : Key) (v : V) (d idx : Nat) (hd 
     by_cases hlt : bp < d
     · simp only [hlt, if_true]
       -- the new key agrees with the descent's key on bits < d - 1, hence on bits < bp - 1 and at bp - 1
-      have hnew : ∀ j, j < bp → kbit key j = kbit (descend T key).2.1 j := fun j hj => hsame j (by omega)
-      cases hb : kbit key (bp - 1)
+      have hnew : ∀ j, j < bp → xbit key j = xbit (descend T key).2.1 j := fun j hj => hsame j (by omega)
+      cases hb : xbit key (bp - 1)
       · simp only [Bool.false_eq_true, if_false]
         have hdl : descend l key = descend T key := by rw [← hdesc]; simp [descend, hb]
         refine ⟨hbp, ?_, hr, ?_, ihl hcl hdl, hcr⟩
@@ -318,7 +365,7 @@ theorem crit_ins {T : PT V} (hc : Crit T) (key : Key) (v : V) (d idx : Nat) (hd 
           rcases (mem_keys_ins l key v d idx k).mp hk with rfl | hk
           · exact hb
           · exact hl k hk
-        · have hagree : ∀ k ∈ keys (ins l key v d idx) ++ keys r, ∀ j, j < bp - 1 → kbit k j = kbit (descend T key).2.1 j := by
+        · have hagree : ∀ k ∈ keys (ins l key v d idx) ++ keys r, ∀ j, j < bp - 1 → xbit k j = xbit (descend T key).2.1 j := by
             intro k hk j hj
             rcases List.mem_append.mp hk with hk | hk
             · rcases (mem_keys_ins l key v d idx k).mp hk with rfl | hk
@@ -334,7 +381,7 @@ theorem crit_ins {T : PT V} (hc : Crit T) (key : Key) (v : V) (d idx : Nat) (hd 
           rcases (mem_keys_ins r key v d idx k).mp hk with rfl | hk
           · exact hb
           · exact hr k hk
-        · have hagree : ∀ k ∈ keys l ++ keys (ins r key v d idx), ∀ j, j < bp - 1 → kbit k j = kbit (descend T key).2.1 j := by
+        · have hagree : ∀ k ∈ keys l ++ keys (ins r key v d idx), ∀ j, j < bp - 1 → xbit k j = xbit (descend T key).2.1 j := by
             intro k hk j hj
             rcases List.mem_append.mp hk with hk | hk
             · exact hp k (List.mem_append.mpr (.inl hk)) _ (by simpa using hkstar) j hj
@@ -351,7 +398,7 @@ theorem crit_ins {T : PT V} (hc : Crit T) (key : Key) (v : V) (d idx : Nat) (hd 
         apply hdiff
         rw [← hdesc]
         simp only [descend]
-        cases hb : kbit key (bp - 1)
+        cases hb : xbit key (bp - 1)
         · simp only [Bool.false_eq_true, if_false]
           exact (hl _ (descend_key_mem l key)).symm
         · simp only [if_true]
@@ -364,13 +411,13 @@ theorem crit_ins {T : PT V} (hc : Crit T) (key : Key) (v : V) (d idx : Nat) (hd 
 /-- bit position the stopping point of `ins` has, if it is an inner node, is larger than `d` (used for
 the representation: the grafted node's child links stay downward links) -/
 theorem descend_ins_stop {i bp : Nat} {l r : PT V} (hc : Crit (inner i bp l r)) (key : Key) (d : Nat)
-    (hge : ¬ bp < d) (hdiff : kbit key (d - 1) ≠ kbit (descend (inner i bp l r) key).2.1 (d - 1)) : d < bp := by
+    (hge : ¬ bp < d) (hdiff : xbit key (d - 1) ≠ xbit (descend (inner i bp l r) key).2.1 (d - 1)) : d < bp := by
   have hne : bp ≠ d := by
     intro heq
     subst heq
     apply hdiff
     simp only [descend]
-    cases hb : kbit key (bp - 1)
+    cases hb : xbit key (bp - 1)
     · simp only [Bool.false_eq_true, if_false]
       exact (hc.2.1 _ (descend_key_mem l key)).symm
     · simp only [if_true]
@@ -381,7 +428,7 @@ theorem descend_ins_stop {i bp : Nat} {l r : PT V} (hc : Crit (inner i bp l r)) 
 
 def upd : PT V → Key → V → PT V
   | leaf i k _, _, v => leaf i k v
-  | inner i bp l r, key, v => if kbit key (bp - 1) then inner i bp l (upd r key v) else inner i bp (upd l key v) r
+  | inner i bp l r, key, v => if xbit key (bp - 1) then inner i bp l (upd r key v) else inner i bp (upd l key v) r
 
 theorem keys_upd (T : PT V) (key : Key) (v : V) : keys (upd T key v) = keys T := by
   induction T with
@@ -416,7 +463,7 @@ theorem mem_ents_upd {T : PT V} (hc : Crit T) (key : Key) (v : V) (hk : (descend
     obtain ⟨hbp, hl, hr, hp, hcl, hcr⟩ := hc
     simp only [descend] at hk
     simp only [upd]
-    cases hb : kbit key (bp - 1)
+    cases hb : xbit key (bp - 1)
     · simp only [hb, Bool.false_eq_true, if_false] at hk ⊢
       simp only [ents, List.mem_append, ihl hcl hk]
       constructor
